@@ -369,14 +369,14 @@ Proof.
   rewrite Hag in F. rewrite F in F'.
   destruct (find_def t n) as [[d ch]|] eqn:E; destruct (find_def t' n) as [[d' ch']|] eqn:E';
     cbn in F'; try discriminate; [|reflexivity].
-  inversion F'; subst d'.
+  inversion F' as [[Hdd Hcc]]. subst d'.
   destruct (find_def_wf _ _ _ _ Hi E) as [Hw [_ Hid]].
   destruct (find_def_wf _ _ _ _ Hi' E') as [Hw' _].
   apply resolve_top_backward_only; try assumption; [lia|].
   unfold agree_before. rewrite Hid.
-  rewrite <- (map_ext _ _ (fun l => trunc_trunc_objs n (S n) l (Nat.le_succ_diag_r n))).
-  rewrite <- (map_ext _ _ (fun l => trunc_trunc_objs n (S n) l (Nat.le_succ_diag_r n))) at 1.
-  rewrite <- !map_map. congruence.
+  assert (G : forall c:ctx, map (trunc_objs n) c = map (trunc_objs n) (map (trunc_objs (S n)) c)).
+  { intros c. rewrite map_map. apply map_ext. intros l. symmetry. apply trunc_trunc_objs. lia. }
+  rewrite (G ch), (G ch'). cbn [fst snd] in Hcc. rewrite Hcc. reflexivity.
 Qed.
 
 (* ------------------------------------------------------------------ what the order buys *)
@@ -419,8 +419,8 @@ Proof.
   cbn [trunc_objs]. destruct (stops n k) eqn:Es.
   - pose proof (stops_no_smaller n k r id Ho Es Hin H0). lia.
   - cbn [pre_ids_l]. apply in_or_app. apply in_app_or in Hin. destruct Hin as [Hin|Hin].
-    + left. apply Hk; assumption.
-    + right. apply IHr; assumption.
+    + left. apply Hk; auto.
+    + right. apply IHr; [assumption|assumption|exact Hs].
 Qed.
 Lemma trunc_keeps_earlier : forall n l id,
   ordb (pre_ids_l l) = true -> In id (pre_ids_l l) -> id <> 0 -> id < n ->
